@@ -21,6 +21,23 @@ PROPS = {
     "C06": P(6, ["C06"], stateful=True),
     "C07": P(7, ["C07"], stateful=True),
     "C17": P(17, ["C17"], stateful=True),
+    "C08": P(8, ["C08"],
+        rule="CORR: model observation = Go observation for every mk.* op (streaming Merkleize, ChunksHTR, field lists, complex/basic lists and vectors, byte lists/vectors, bitlists/bitvectors, mix-in, union); PROP: equals the Spec root (merk/htr); "
+             "all count <= limit <= 70 under both hashes, limits 2^k and 2^k±1 up to 2^64-1 with small counts, typed helpers at chunk boundaries; ops outside the property (count > limit, malformed bitfields) are CORR-only; distinct = distinct op shapes",
+        explanation="model of tree.Merkleize, all HashFn.*HTR helpers and BitlistLen proved equal to Spec merk/htr for every pair hash h (ZtypV.Props.C08.*)",
+        assumptions=["Go CoverDepth modelled by ZtypV.coverDepth on naturals (its uint8 bit arithmetic is C16)", "HTR elements are represented by the root they return",
+                     "ZeroHashes initialised with the hash in use", "typed-helper theorems need limit+31 / limit+3 / bitlimit+255 < 2^64 (C08_byteList_limit_wraps records the wrap beyond)",
+                     "branches where uint8 j reaches 64 need count > 2^63: covered by proof only"],
+        trusted=COMMON_TRUST + ["mkLeaf formula written twice (Go and Lean)"]),
+    "C18": P(18, ["C18"],
+        rule="model obs == Go obs (CORR) for every bf.* op; PROP verdict computed on List Bool only (unpack, re-pack with Spec.packBits, compare; counts/covers/get/set on the bit list); "
+             "quick: all byte strings <= 2 bytes x limits/lengths 0..40 + seed-chosen 1% slice of the 3-byte space, all per-string helpers with every index (incl. panic region), Covers on all 1-byte pairs + sampled 2-byte pairs, "
+             "random strings <= 70 bytes around 8*len / limit / 2^k boundaries; thorough: all 3-byte strings with first byte = seed mod 8 x limits 0..40; distinct = distinct op lines",
+        explanation="bitlistCheck_iff / bitvectorCheck_iff: the checks accept exactly packBits(bits++[true]) with |bits|<=limit resp. packBits bits with |bits|=n, for ALL byte strings and 64-bit limits; "
+                    "bitlistLen/getBit/setBit/OnesCount/isZeroBitlist/covers on packed values equal the list operations (ZtypV.Props.C18.*)",
+        assumptions=["b.length < 2^64 where len is converted to uint64", "BitvectorCheck: n + 7 < 2^64; for n >= 2^64-7 the Go code wraps and accepts exactly the empty string (bitvectorCheck_wrapped; same arithmetic as known finding D19; generator does not emit these)",
+                     "len/ones/zero PROP only on valid bitlist encodings, get/set PROP only for indices inside the slice (CORR everywhere)"],
+        trusted=COMMON_TRUST + ["Lean core UInt64/UInt8 semantics = Go uint64/uint8", "math/bits.OnesCount8 modelled by its specification"]),
     "C15": P(15, ["C15", "C15b", "C15x"],
         rule="op `sizes T`: the constructors' IsFixedByteLength/TypeByteLength/MinByteLength/MaxByteLength vs model Sizes.typeSizes (CORR) and vs Spec isFixed/typeByteLength/minSize/maxSize unless maxSize >= 2^64 (PROP); "
              "op `sizes.wit T`: the library encodes/decodes/re-encodes minimum and maximum witnesses; C15b enumerates every quantifier length on every leaf/series kind, depth 1-2 exhaustively over a reduced alphabet, overflow-boundary types; "
